@@ -7,7 +7,7 @@ every operation on them is checked for the exceptions CPython would raise.
 from pyvc.api import schema
 
 schema({
-    "Block": {"_start_line_in_file": "any", "_raw": "any", "_parser_metadata": "dict:str:any"},
+    "Block": {"_start_line_in_file": "any", "_raw": "any", "_parser_metadata": "optref:dict:str:any"},
     "String": {"_key": "str", "_value": "any"},
     "Preamble": {"_value": "str"},
     "ExplicitComment": {"_comment": "str"},
